@@ -289,8 +289,8 @@ def oracle(c, r):
         if r["wrong"]:
             out.append(("%d of %d free-running run_jobs calls returned wrong results" % (r["wrong"], r["calls"]), []))
         if r.get("stuck"):
-            out.append(("%d of %d free-running run_jobs calls returned but left a worker blocked for ever in job_queue.get() "
-                        "(two workers saw the last job, one took it)" % (r["stuck"], r["calls"]), [RACE_CLASS]))
+            out.append(("%d of %d free-running run_jobs calls returned but left a worker process that was still alive 60 s later "
+                        "(blocked in job_queue.get(): it never received a job or its StopCommand)" % (r["stuck"], r["calls"]), [RACE_CLASS]))
         if r["hangs"]:
             out.append(("%d of %d free-running run_jobs calls on %d quick jobs never returned (every worker found the shared "
                         "job queue still empty and exited; the main loop polls forever)" % (r["hangs"], r["calls"], c["jobs"]), [RACE_CLASS]))
